@@ -241,6 +241,33 @@ class FxSvcCtrl(Controller):
 
     run = FxSvcTrio.run
 '''
+SITECUSTOMIZE = '''
+"""Harness-owned schedule perturbation inside the daemon process (no change to the code under test): if
+VERIF_TRACE_DELAY is set, sleep a per-thread number of milliseconds at every source line of the named modules."""
+import json, os, sys, threading, time
+
+_spec = os.environ.get("VERIF_TRACE_DELAY")
+if _spec:
+    _spec = json.loads(_spec)
+    _files = tuple(_spec["files"])
+    _delays = _spec["delays_ms"]
+    _main = threading.main_thread().ident
+
+    def _local(frame, event, arg):
+        if event == "line":
+            d = _delays[0] if threading.get_ident() == _main else _delays[1 + (threading.get_ident() % (len(_delays) - 1))]
+            if d:
+                time.sleep(d / 1000)
+        return _local
+
+    def _tracer(frame, event, arg):
+        if event == "call" and frame.f_code.co_filename.endswith(_files):
+            return _local
+        return None
+
+    threading.settrace(_tracer)
+    sys.settrace(_tracer)
+'''
 MOD = "verifdaemon_fx"
 TAGS = ["FxPool", "FxDeco", "FxCtrl", "FxSvcAsyncio", "FxSvcTrio", "FxSvcThread", "FxSvcCtrl", "FxSvcParked", "FxGc", "FxSvcQuiet", "FxSvcUnhashable", "FxSvcEqual"]
 _ready = False
@@ -250,6 +277,7 @@ def ensure_fixtures():
     global _ready
     if not _ready:
         write_module(MOD + ".py", FIXTURES)
+        write_module("sitecustomize.py", SITECUSTOMIZE)
         write_entry_points("verif_daemon", {"cobald.config.yaml_constructors": {t: f"{MOD}:{t}" for t in TAGS},
                                             "cobald.config.sections": {"verifsection": f"{MOD}:section_digest"}})
         _ready = True
@@ -273,7 +301,8 @@ def read_events(path):
 
 
 class Daemon:
-    def __init__(self, config_name, config_text, extra_args=(), create=True):
+    def __init__(self, config_name, config_text, extra_args=(), create=True, trace_delay=None):
+        self.trace_delay = trace_delay
         self.scratch = ensure_fixtures()
         self.dir = tempfile.mkdtemp(prefix="daemon-", dir=self.scratch)
         self.config = os.path.join(self.dir, config_name)
@@ -290,6 +319,10 @@ class Daemon:
         env = dict(os.environ)
         env["PYTHONPATH"] = os.pathsep.join([os.path.join(repo, "src"), self.scratch])
         env["VERIF_EVENTS"] = self.events
+        if self.trace_delay:
+            env["VERIF_TRACE_DELAY"] = json.dumps(self.trace_delay)
+        else:
+            env.pop("VERIF_TRACE_DELAY", None)
         env.pop("PYTHONHASHSEED", None)
         self.t_start = time.time()
         self.proc = subprocess.Popen([sys.executable, "-m", "cobald.daemon", self.config, "--log-target", self.log] + self.extra_args,
